@@ -23,6 +23,10 @@ CLAIMS = {
          "Proof over listed obligations: on every enumerated path of the four announce handlers each call that reaches swarm state or per-connection announce bookkeeping is preceded by the true edge of allows(configured mode, this request's info hash) and the false edge builds the error reply; allows() tables; the three torrent retain closures decide on allows() first; ArcSwap::store receives only the Ok payload of create_from_path, in which every fallible step is `?`-propagated; the SIGUSR1 handlers reload the shared list.",
          "Trusted: arc_swap, hashbrown, hex, str::trim. Paths are enumerated with loops unrolled once; feasibility is not solved.",
          "DESIGN.md section 2, C11"),
+ "C06": ("path-sensitive guard/effect analysis of both UDP back ends (validator true edge before every non-connect reply; per-datagram send count; origin of txid and destination)",
+         "Necessary conditions decided on every enumerated path: the complete reply table of handle_request in both back ends (request kind x validator outcome x access list -> reply kind, transaction id and destination), error replies for sendable parse errors only under a valid id for (source, that error's id), per-datagram slices of the mio receive loop with at most one send (exactly one when answered, none for port 0), the io_uring queue/send path keeping reply and address together, 16-byte connect reply <= smallest accepted connect request, scrape order and limit origin.",
+         "Not decided: kernel delivery, resend timing; the io_uring request buffer size question is decided under C18. Receive loop unrolled once; path feasibility not solved.",
+         "DESIGN.md section 2, C06"),
 }
 
 PENDING_REASON = "check under construction in this build phase (static rules designed in DESIGN.md section 2); not claimed until its rule set is validated both ways"
